@@ -75,12 +75,12 @@ structure Node where
   macTable : List (Mac × Nat) := []
   routes : Table := {}
   replies : List (Nat × Nat) := []
-deriving Repr
+deriving DecidableEq, Repr
 
 inductive Ev
   | rx (node ifc fid : Nat) (ttl : Int)
   | hop (node fid : Nat) (ttl : Int)
-  | sw (node fid : Nat)
+  | sw (node fid : Nat) (dstIp : Ip) (bcast : Bool)
   | raised (node : Nat)
 deriving DecidableEq, Repr
 
@@ -270,7 +270,7 @@ def hostRecv (fuel : Nat) (st : St) (n i : Nat) (f : Frame) : St × Frame :=
     match st.node? n, st.iface? n i with
     | some nd, some ifc =>
       let st := if nd.on then st.modNode n (fun nd => nd.addArp f.srcIp f.srcMac i) else st
-      let st := st.emit (.sw n f.id)
+      let st := st.emit (.sw n f.id f.dstIp (f.dstMac == bcastMac))
       match f.pl with
       | .arpReq sIp sMac tIp =>
         if !nd.on then (st, f)
@@ -467,7 +467,7 @@ def routerRecv (fuel : Nat) (st : St) (n i : Nat) (f : Frame) : St × Frame :=
       match ifaceWithIp nd.ifaces f.dstIp with
       | some own =>
         -- `check_send_frame_to_session_manager`: an own address and (ICMP or the open ARP port)
-        let st := st.emit (.sw n f.id)
+        let st := st.emit (.sw n f.id f.dstIp (f.dstMac == bcastMac))
         match f.pl with
         | .arpReq sIp sMac tIp =>
           if ifc.enabled && ifc.ip == tIp then (sendArpReply fuel st n (.arpRep tIp ifc.mac sIp sMac), f) else (st, f)
